@@ -38,22 +38,28 @@ def plan(tier):
                           Modes=('opt', 'imm', 'ser'), OpSet=WRITER + ('GFU', 'F'), LockModes=LM)),
         ]
     return [
-        dict(name='c35-locker-vs-writer-full', how='graph', limit=None,
+        dict(name='c35-locker-vs-writer', how='graph', limit=5000,
              cfg=dict(NS=2, NO=1, MaxOps=2, Modes1=('opt', 'ser'), OpSet1=LOCKER, Modes=('opt', 'imm', 'ser'),
                       OpSet=WRITER, LockModes=LM)),
         dict(name='c35-coverage', how='check', coverage=True,
              cfg=dict(NS=2, NO=1, MaxOps=2, Modes=('opt', 'imm', 'ser'), OpSet=LOCKER + ('D', 'Q', 'F', 'X'),
                       LockModes=('wait', 'nowait'))),
-        dict(name='c35-3ops', how='graph', limit=5000,
+        # programs of 3 operations, exhaustive
+        dict(name='c35-3ops', how='check',
              cfg=dict(NS=2, NO=1, MaxOps=3, Modes1=('opt', 'ser'), OpSet1=LOCKER, Modes=('opt', 'imm', 'ser'),
                       OpSet=WRITER, LockModes=('wait', 'nowait'))),
-        dict(name='c35-2rows', how='graph', limit=4000,
+        # two rows: locking one row must not protect (or block) more than the model says
+        dict(name='c35-2rows', how='check',
              cfg=dict(NS=2, NO=2, MaxOps=2, Modes1=('opt', 'ser'), OpSet1=LOCKER, Modes=('opt', 'imm'),
                       OpSet=WRITER, LockModes=('wait', 'skip_locked'))),
+        dict(name='c35-2rows-replay', how='graph', limit=2500,
+             cfg=dict(NS=2, NO=2, MaxOps=2, Modes1=('opt',), OpSet1=('GFU', 'W'), Modes=('opt',),
+                      OpSet=('W', 'D'), LockModes=('wait',))),
+        # 3 sessions: one locker, two writers queueing for the lock
         dict(name='c35-3s', how='graph', limit=3000,
              cfg=dict(NS=3, NO=1, MaxOps=1, Modes1=('opt', 'ser'), OpSet1=('GFU', 'QFU', 'R'), Modes=('opt', 'imm', 'ser'),
                       OpSet=('W', 'D', 'GFU'), LockModes=('wait',))),
-        dict(name='c35-3s-4ops-sim', how='simulate', num=3000, depth=24,
+        dict(name='c35-3s-4ops-sim', how='simulate', num=2500, depth=26,
              cfg=dict(NS=3, NO=2, MaxOps=4, Modes1=('opt', 'ser'), OpSet1=LOCKER + ('Q', 'X'),
                       Modes=('opt', 'imm', 'ser'), OpSet=WRITER + ('GFU', 'QFU', 'F', 'X'), LockModes=LM)),
     ]
